@@ -197,7 +197,7 @@ def check_C03(res, tier, seed, replay):
         for n in (6, 7):
             big.append((gens.reweight(rng, gens.complete(n), [1, 2, 3]), 1))
         bl = [vlib.graph_line(i, g['n'], g['edges'], den) for i, (g, den) in enumerate(big)]
-        tr3 = vlib.parallel_record(exe2, bl, wd, 'tbb_real', extra=['--algos', 'signed_tbb,fvs_tbb,iso_tbb', '--types', 'double'], nproc=4)
+        tr3 = vlib.parallel_record(exe2, bl, wd, 'tbb_real', extra=['--algos', 'signed_tbb,fvs_tbb,iso_tbb', '--types', 'double', '--positional'], nproc=4)
         v3 = vlib.validate_trace('Trace_Mcb', 'Trace_Mcb.cfg', tr3)
         res.add_validation(v3, vlib.count_events(tr3).get('Call', 0))
         res.cov['real_onetbb_calls'] = vlib.count_events(tr3).get('Call', 0)
